@@ -203,7 +203,7 @@ async def run_overlap(tbl, idx, triple, req, retries, events, timeout=5.0):
     return [points, intruders, [p.values.value, p.values.min_value, p.values.max_value]]
 
 
-async def run_set_call_frames(product, idx, triple, value, retries, timeout, events, tracking, payloads, gated=False):
+async def run_set_call_frames(product, idx, triple, value, retries, timeout, events, tracking, payloads, gated=False, mixer=False):
     """As run_set_call, for an ecoMAX parameter of a REAL device: the parameter is created, and every report delivered, by
     ecoMAX-parameters response frames through EcoMAX.handle_frame (payloads[0] creates it, payloads[1:] are the reports of
     `events` in order).  Returns (outs per point, triple after, None).
@@ -219,7 +219,9 @@ async def run_set_call_frames(product, idx, triple, value, retries, timeout, eve
     from harness import proto_impl as PI
     queue = asyncio.Queue()
     dev = EcoMAX(queue, network=NetworkInfo())
-    name = EP.ECOMAX_PARAMETERS[ProductType(product)][idx].name
+    from pyplumio.structures import mixer_parameters as MP
+    name = (MP.MIXER_PARAMETERS if mixer else EP.ECOMAX_PARAMETERS)[ProductType(product)][idx].name
+    Resp = R.MixerParametersResponse if mixer else R.EcomaxParametersResponse
 
     async def settle():
         for _ in range(8):
@@ -227,14 +229,15 @@ async def run_set_call_frames(product, idx, triple, value, retries, timeout, eve
 
     dev.handle_frame(R.UIDResponse(message=bytearray(PI.payload("responses/uid.json", {0: "EM350P2_uid", 1: "ecoMAX_850i_uid"}[product]))))
     await settle()
-    dev.handle_frame(R.EcomaxParametersResponse(message=bytearray(payloads[0])))
+    dev.handle_frame(Resp(message=bytearray(payloads[0])))
     await settle()
     while not queue.empty():
         queue.get_nowait()
-    p = dev.data[name]
+    p = dev.data["mixers"][0].data[name] if mixer else dev.data[name]
     if tracking:
-        dev._frame_versions[FrameType.REQUEST_ECOMAX_PARAMETERS] = 1
-    dec = lambda m: m[1]
+        dev._frame_versions[FrameType.REQUEST_MIXER_PARAMETERS if mixer else FrameType.REQUEST_ECOMAX_PARAMETERS] = 1
+    dec = (lambda m: m[2]) if mixer else (lambda m: m[1])
+    SET_CODE, REFRESH_CODE = (52, 50) if mixer else (51, 49)
     gate = []
     loop = asyncio.get_running_loop()
     if gated:
@@ -248,7 +251,7 @@ async def run_set_call_frames(product, idx, triple, value, retries, timeout, eve
         """let the pending thread-pool jobs complete; a hop report is handled before the first of them does"""
         await settle()
         if hop_payload is not None:
-            dev.handle_frame(R.EcomaxParametersResponse(message=bytearray(hop_payload)))
+            dev.handle_frame(Resp(message=bytearray(hop_payload)))
             await settle()
         while gate:
             fut, func, args = gate.pop(0)
@@ -273,7 +276,7 @@ async def run_set_call_frames(product, idx, triple, value, retries, timeout, eve
         return []
 
     def point():
-        return drain(queue, 51, 49, dec) + result_outs()
+        return drain(queue, SET_CODE, REFRESH_CODE, dec) + result_outs()
 
     k, i = 1, 0
     hop = events[0] if gated and events and events[0][0] == 3 else None
@@ -294,7 +297,7 @@ async def run_set_call_frames(product, idx, triple, value, retries, timeout, eve
                 k, i = k + 1, i + 1
                 outs.append(point())
         else:
-            dev.handle_frame(R.EcomaxParametersResponse(message=bytearray(payloads[k])))
+            dev.handle_frame(Resp(message=bytearray(payloads[k])))
             k += 1
             await pump()
             outs.append(point())
@@ -308,7 +311,10 @@ async def run_set_call_frames(product, idx, triple, value, retries, timeout, eve
     for t in list(dev.tasks):
         t.cancel()
     await asyncio.gather(*dev.tasks, return_exceptions=True)
-    q = dev.data[name]
+    q = dev.data["mixers"][0].data[name] if mixer else dev.data[name]
+    for m_ in dev.data.get("mixers", {}).values():
+        for t in list(m_.tasks):
+            t.cancel()
     return outs, [q.values.value, q.values.min_value, q.values.max_value], None
 
 
